@@ -41,7 +41,7 @@ def build_pinned(ps, w, init):
     pins = []
     for v in w.statevars:
         name = str(v)
-        if name.startswith("dir_"):
+        if name.startswith("dir_") or name.startswith("fs_"):
             x = init.get(name, True)
         elif name.startswith("bind_") or name.startswith("meta_"):
             x = init.get(name, -1)
@@ -90,9 +90,16 @@ def sequential_outcomes(w, init, program):
 FAULTV = z3.Int("conc_fault_at")
 
 
-def run_schedule(ps, w, init, program, bound, allowed, pinned=None, with_fault=False, pinned_fault=None):
+def run_schedule(ps, w, init, program, bound, allowed, pinned=None, with_fault=False, pinned_fault=None, opts=None):
     F = build_pinned(ps, w, init)
-    s = w.store()
+    two = (opts or {}).get("instances", 1) > 1
+    if two:
+        # each call goes through its own store instance (made by the real constructor) on the one store: the
+        # instances exclude nobody, so only termination and the lock lists are judged, not the outcome
+        insts = w.real_instances(opts["instances"])
+    else:
+        insts = [w.store()]
+    s = insts[0]
     sched.reset_primitives(s)
     sc = sched.Sched(ps, bound, pinned)
     sched.CUR[0] = sc
@@ -108,7 +115,7 @@ def run_schedule(ps, w, init, program, bound, allowed, pinned=None, with_fault=F
                     fault["hit"] = (idx, kind, path)
                     raise OSError(_errno.EIO, "Input/output error (injected)", path)
         F.injector = inj
-    ts = [sc.spawn(lambda c=c: summ(c.run(w, s)), c.label) for c in program]
+    ts = [sc.spawn(lambda c=c, si=insts[t % len(insts)]: summ(c.run(w, si)), c.label) for t, c in enumerate(program)]
     try:
         status = sc.run()
     finally:
@@ -126,16 +133,17 @@ def run_schedule(ps, w, init, program, bound, allowed, pinned=None, with_fault=F
         state = None
     else:
         state = w.concrete_state()
-        if not with_fault and (res, state) not in allowed:
+        if not with_fault and not two and (res, state) not in allowed:
             same_res = [k for k in allowed if k[0] == res]
             why = "results match a sequential order but the final state does not" if same_res else \
                 "no sequential order (nor the in-progress rejection) produces these results"
             bad.append(("LIN:not-linearizable", why, res))
-        for p in w.instance_problems(s):
-            if p[0] == "identifier-left-locked":
-                bad.append(("C08:identifier-left-locked", p[1:]))
+        for si in insts:
+            for p in w.instance_problems(si):
+                if p[0] == "identifier-left-locked":
+                    bad.append(("C08:identifier-left-locked", p[1:]))
         # follow-up calls on the identifiers involved must complete without blocking
-        for c in program:
+        for c, s in [(c, si) for c in program for si in insts]:
             i = getattr(c, "i", None)
             if i is None:
                 continue
@@ -168,11 +176,12 @@ def explore_scenarios(w_args, scenarios_fn, bound, procs=None, mp=False, with_fa
     def worker(job):
         k, part = job
         w = World(**a)
-        name, init, program = scenarios_fn(w)[k]
-        allowed = sequential_outcomes(w, init, program) if not with_fault else {}
+        name, init, program, *rest = scenarios_fn(w)[k]
+        opts = rest[0] if rest else {}
+        allowed = sequential_outcomes(w, init, program) if not with_fault and opts.get("instances", 1) < 2 else {}
         tsp = z3.Int("fault_split")
         ps = PathSym(w.inv() + ([FAULTV >= 0, tsp >= 0, FAULTV == part + NSPLIT * tsp] if with_fault else []))
-        recs = ps.explore(lambda p: run_schedule(p, w, init, program, bound, allowed, with_fault=with_fault))
+        recs = ps.explore(lambda p: run_schedule(p, w, init, program, bound, allowed, with_fault=with_fault, opts=opts))
         w.cleanup()
         st = ps.st.as_dict()
         bad = {}
@@ -213,13 +222,14 @@ def replay_schedule(w_args, scenarios_fn, k, log, bound, want_prefix, mp=False, 
              multiprocessing_mod=sched.fmultiprocessing, sym_dirs=True, mode="passthrough", mp=mp)
     w = World(**a)
     try:
-        name, init, program = scenarios_fn(w)[k]
+        name, init, program, *rest = scenarios_fn(w)[k]
+        opts = rest[0] if rest else {}
         # sequential outcomes on the real file system too
-        allowed = sequential_outcomes(w, init, program) if fault_at is None else {}
+        allowed = sequential_outcomes(w, init, program) if fault_at is None and opts.get("instances", 1) < 2 else {}
         ps = PathSym(w.inv())
         ps.begin()
         rec = run_schedule(ps, w, init, program, bound, allowed, pinned=list(log), with_fault=fault_at is not None,
-                           pinned_fault=fault_at)
+                           pinned_fault=fault_at, opts=opts)
         hit = [b for b in rec["bad"] if b[0].startswith(want_prefix)]
         return bool(hit), ("passthrough replay on the real file system: scenario %s, calls %s in real threads under "
                            "the recorded schedule %s%s -> results %s; failing: %s" % (
